@@ -5,6 +5,7 @@ from __future__ import annotations
 import ast
 
 from ..index import FuncInfo, walk_no_nested
+from ..inline import inlined
 from ..report import Result
 from ..source import AnalysisError, src
 
@@ -24,8 +25,9 @@ def _matmul(e):
 
 def m1_left_multiplication(ctx, res: Result, fi: FuncInfo, acc="_unitary") -> None:
     """new accumulator = M(component) . old accumulator"""
+    fn = inlined(fi.node)
     n = 0
-    for a in walk_no_nested(fi.node):
+    for a in walk_no_nested(fn):
         if isinstance(a, ast.Assign) and len(a.targets) == 1 and src(a.targets[0]) == f"self.{acc}":
             mm = _matmul(a.value)
             if mm is None:
@@ -35,52 +37,175 @@ def m1_left_multiplication(ctx, res: Result, fi: FuncInfo, acc="_unitary") -> No
             good = src(r) == f"self.{acc}" and "get_unitary" in src(l)
             res.add(good, "M1-left-multiplication", fi.qualname, fi.site(a), fi.qualname, "component matrix multiplies the accumulated unitary from the left (insertion order = product order)",
                     f"accumulator update `{src(a)[:120]}` is not M(component) @ accumulated: components would be applied in reverse order", construct=src(a)[:200])
+        if isinstance(a, ast.AugAssign) and src(a.target) == f"self.{acc}" and isinstance(a.op, ast.MatMult):
+            n += 1
+            res.bad("M1-left-multiplication", fi.qualname, fi.site(a), fi.qualname, f"`{src(a)[:100]}` multiplies the component matrix from the right: components would be applied in reverse order", construct=src(a)[:200])
     if n == 0:
-        res.bad("M1-left-multiplication", fi.qualname, fi.site(), fi.qualname, "no matrix-product update of the accumulated unitary found", construct=fi.qualname)
+        res.frozen(False, "M1-left-multiplication", fi.qualname, fi.site(), fi.qualname, "", "no matrix-product update of the accumulated unitary recognised", construct=fi.qualname)
     # group recursion in list order
-    loops = [l for l in walk_no_nested(fi.node) if isinstance(l, ast.For) and "circuit_spec" in src(l.iter)]
+    loops = [l for l in walk_no_nested(fn) if isinstance(l, ast.For) and "circuit_spec" in src(l.iter)]
     for l in loops:
-        good = src(l.iter) in ("spec.circuit_spec",) or (isinstance(l.iter, ast.Attribute) and l.iter.attr == "circuit_spec")
+        good = isinstance(l.iter, ast.Attribute) and l.iter.attr == "circuit_spec"
         res.add(good, "M1-group-in-order", fi.qualname, fi.site(l), fi.qualname, "group members are compiled in list order", f"group members iterated as `{src(l.iter)}` (not in insertion order)", construct=src(l.iter))
     if not loops:
-        res.bad("M1-group-in-order", fi.qualname, fi.site(), fi.qualname, "groups are not compiled (no iteration over circuit_spec)", construct=fi.qualname)
+        res.frozen(False, "M1-group-in-order", fi.qualname, fi.site(), fi.qualname, "", "no iteration over circuit_spec recognised (groups compiled elsewhere?)", construct=fi.qualname)
 
 
-def m2_loss_shape(ctx, res: Result, fi: FuncInfo, circ_u: FuncInfo, total: FuncInfo) -> None:
-    """exactly one extra mode per loss element; get_unitary sized n_modes + loss modes; U is the leading block"""
-    incs = [a for a in walk_no_nested(fi.node) if isinstance(a, ast.AugAssign) and src(a.target) == "self._loss_modes"]
-    ok = len(incs) == 1 and isinstance(incs[0].op, ast.Add) and src(incs[0].value) == "1"
-    par = ctx.tree.parents(fi.rel)
-    under_loss = False
-    if incs:
-        p = par.get(incs[0])
-        under_loss = isinstance(p, ast.If) and "isinstance(spec, Loss)" in src(p.test) and incs[0] in p.body
-    early = [r for r in walk_no_nested(fi.node) if isinstance(r, (ast.Return, ast.Continue, ast.Raise))]
-    res.add(not early, "M2-every-component-compiled", fi.qualname, fi.site(early[0]) if early else fi.site(), fi.qualname, "no early exit: every Loss grows the unitary and every non-barrier component is multiplied in",
-            f"`{src(early[0])[:60] if early else ''}` lets a component be skipped: U_full no longer has one extra mode per loss element / the component does not enter the product", construct=src(early[0])[:80] if early else "")
-    res.add(ok and under_loss, "M2-one-mode-per-loss", fi.qualname, fi.site(incs[0]) if incs else fi.site(), fi.qualname, "loss-mode counter is incremented by exactly one, once, on the Loss branch",
-            "loss-mode counter is not incremented by exactly one per Loss element", construct=src(incs[0]) if incs else fi.qualname)
-    pads = [c for c in walk_no_nested(fi.node) if isinstance(c, ast.Call) and src(c.func).endswith("pad")]
-    if not pads or not incs:
-        raise AnalysisError(f"{fi.qualname}: loss-mode idiom (counter increment + np.pad) not recognised")
-    okp = len(pads) == 1 and len(pads[0].args) >= 2 and src(pads[0].args[1]).replace(" ", "") in ("(0,1)", "((0,1),(0,1))", "[(0,1),(0,1)]")
-    samebr = bool(pads) and bool(incs) and par.get(_stmt_of(par, pads[0])) is par.get(incs[0])
-    res.add(okp and samebr, "M2-one-mode-per-loss", fi.qualname + ":pad", fi.site(pads[0]) if pads else fi.site(), fi.qualname, "accumulated unitary is padded by one row/column on the Loss branch",
-            "accumulated unitary is not padded by exactly one row and column per Loss element", construct=src(pads[0]) if pads else fi.qualname)
-    diag = [a for a in walk_no_nested(fi.node) if isinstance(a, ast.Assign) and src(a.targets[0]).replace(" ", "") == "self._unitary[-1,-1]"]
-    res.add(len(diag) == 1 and src(diag[0].value).replace(" ", "") in ("1+0j", "1", "1.0", "1.0+0j", "1j*0+1"), "M2-one-mode-per-loss", fi.qualname + ":diag", fi.site(diag[0]) if diag else fi.site(), fi.qualname,
-            "the new loss mode starts as an identity row/column", "new loss mode is not initialised to identity", construct=src(diag[0]) if diag else fi.qualname)
-    gus = [c for c in walk_no_nested(fi.node) if isinstance(c, ast.Call) and isinstance(c.func, ast.Attribute) and c.func.attr == "get_unitary"]
+def _isinstance_truth(ctx, e, var: str, case_mro: set[str]):
+    """three-valued truth of a branch test when `var` is an instance of a class whose MRO names are case_mro"""
+    if isinstance(e, ast.UnaryOp) and isinstance(e.op, ast.Not):
+        v = _isinstance_truth(ctx, e.operand, var, case_mro)
+        return None if v is None else (not v)
+    if isinstance(e, ast.BoolOp):
+        vs = [_isinstance_truth(ctx, x, var, case_mro) for x in e.values]
+        if isinstance(e.op, ast.And):
+            if any(v is False for v in vs):
+                return False
+            return True if all(v is True for v in vs) else None
+        if any(v is True for v in vs):
+            return True
+        return False if all(v is False for v in vs) else None
+    if isinstance(e, ast.Call) and isinstance(e.func, ast.Name) and e.func.id == "isinstance" and len(e.args) == 2 and src(e.args[0]) == var:
+        t = e.args[1]
+        names = [x for x in (t.elts if isinstance(t, ast.Tuple) else [t])]
+        if all(isinstance(x, (ast.Name, ast.Attribute)) for x in names):
+            return any(src(x).split(".")[-1] in case_mro for x in names)
+    return None
+
+
+def m2_loss_shape(ctx, res: Result, fi: FuncInfo, circ_u: FuncInfo, total: FuncInfo, component_base="Component") -> None:
+    """exactly one extra mode per loss element; get_unitary sized n_modes + loss modes; U is the leading block.
+    Path rule per component class T (CFG of the compiler's add restricted to the branches feasible when spec is a T):
+      Loss: every path to the normal exit passes the counter increment, the pad and the matrix product;
+      Group: every path passes the recursion loop;  Barrier: nothing is required;
+      any other class: every path passes the matrix product;  and no class but Loss reaches increment or pad."""
+    from ..cfg import CFG, forward
+
+    fn = inlined(fi.node)
+    var = fi.params()[1] if len(fi.params()) > 1 else "spec"
+    cfg = CFG(fn)
+
+    def gen(n):
+        out = set()
+        if n.ast is None:
+            return out
+        if n.kind == "for":
+            if "circuit_spec" in src(n.ast.iter) and any(isinstance(c, ast.Call) and src(c.func) == f"self.{fi.name}" for c in ast.walk(n.ast)):
+                out.add("recurse")
+            return out
+        if n.kind != "stmt":
+            return out
+        st = n.ast
+        if isinstance(st, ast.AugAssign) and src(st.target) == "self._loss_modes":
+            out.add("inc")
+        if isinstance(st, ast.Assign) and src(st.targets[0]) == "self._loss_modes":
+            out.add("inc")
+        for c in ast.walk(st):
+            if isinstance(c, ast.Call) and src(c.func).split(".")[-1] == "pad":
+                out.add("pad")
+        if isinstance(st, ast.Assign) and src(st.targets[0]) == "self._unitary" and _matmul(st.value) is not None:
+            out.add("matmul")
+        if isinstance(st, ast.AugAssign) and src(st.target) == "self._unitary" and isinstance(st.op, ast.MatMult):
+            out.add("matmul")
+        return out
+
+    gens = {n.id: gen(n) for n in cfg.nodes}
+    allg = set().union(*gens.values()) if gens else set()
+    if not {"inc", "pad", "matmul"} <= allg:
+        res.frozen(False, "M2-one-mode-per-loss", fi.qualname, fi.site(), fi.qualname, "", f"loss-mode idiom (counter increment + np.pad + matrix product) not recognised: found {sorted(allg)}", construct=fi.qualname)
+    else:
+        base = ctx.ix.find_class(component_base)
+        cases = [c for c in (ctx.ix.subclasses(base) if base else []) if c.module.rel == base.module.rel]
+        if len(cases) < 5:
+            raise AnalysisError(f"{component_base}: only {len(cases)} component classes found")
+        for case in cases:
+            mro = {c.name for c in ctx.ix.mro(case)}
+
+            def feasible(n, t, lab, mro=mro):
+                if lab in ("exc", "raise"):
+                    return False
+                if n.kind == "test" and lab in ("true", "false"):
+                    v = _isinstance_truth(ctx, n.ast.test, var, mro)
+                    if v is not None:
+                        return v == (lab == "true")
+                return True
+
+            # must-facts: intersection over paths; may-facts: union
+            def tr(n, st, lab):
+                must, may = st
+                g = gens[n.id]
+                return (must | frozenset(g), may | frozenset(g))
+
+            IN = forward(cfg, (frozenset(), frozenset()), tr, lambda a, b: (a[0] & b[0], a[1] | b[1]), edge_filter=feasible)
+            ex = IN[cfg.exit.id]
+            inst = f"{fi.qualname}:{case.name}"
+            if ex is None:
+                res.bad("M2-every-component-compiled", inst, fi.site(), fi.qualname, f"no normal path through the compiler for a {case.name}", construct=case.name)
+                continue
+            must, may = ex
+            if case.name == "Loss":
+                need, forbid = {"inc", "pad", "matmul"}, set()
+            elif case.name == "Group":
+                need, forbid = {"recurse"}, {"inc", "pad"}
+            elif case.name == "Barrier":
+                need, forbid = set(), {"inc", "pad"}
+            else:
+                need, forbid = {"matmul"}, {"inc", "pad"}
+            miss, extra = need - must, forbid & may
+            why = {"inc": "the loss-mode counter increment", "pad": "the padding of the accumulated unitary", "matmul": "the matrix product with the accumulated unitary", "recurse": "the recursion over its members"}
+            if miss or extra:
+                msg = "; ".join([f"a path for a {case.name} skips {why[m]}" for m in sorted(miss)] + [f"a {case.name} can reach {why[m]}" for m in sorted(extra)])
+                res.bad("M2-every-component-compiled", inst, fi.site(), fi.qualname, msg + ": U_full no longer has one extra mode per loss element / the component does not enter the product", construct=f"{case.name}: must={sorted(must)} may={sorted(may)}")
+            else:
+                res.ok("M2-every-component-compiled", inst, fi.site(), fi.qualname, f"every path for a {case.name} passes {sorted(need) or 'nothing required'}; cannot reach {sorted(forbid)}")
+        # the increment is by exactly one and not inside a loop
+        incs = [a for a in walk_no_nested(fn) if isinstance(a, (ast.AugAssign, ast.Assign)) and src(a.target if isinstance(a, ast.AugAssign) else a.targets[0]) == "self._loss_modes"]
+        par = _parents(fn)
+        def in_loop(x):
+            x = par.get(x)
+            while x is not None and x is not fn:
+                if isinstance(x, (ast.For, ast.While)):
+                    return True
+                x = par.get(x)
+            return False
+        ok = len(incs) == 1 and not in_loop(incs[0]) and (
+            (isinstance(incs[0], ast.AugAssign) and isinstance(incs[0].op, ast.Add) and src(incs[0].value) == "1")
+            or (isinstance(incs[0], ast.Assign) and src(incs[0].value).replace(" ", "") in ("self._loss_modes+1", "1+self._loss_modes")))
+        res.add(ok, "M2-one-mode-per-loss", fi.qualname, fi.site(incs[0]) if incs else fi.site(), fi.qualname, "loss-mode counter is incremented by exactly one, once",
+                "loss-mode counter is not incremented by exactly one per Loss element", construct=src(incs[0]) if incs else fi.qualname)
+        pads = [c for c in walk_no_nested(fn) if isinstance(c, ast.Call) and src(c.func).split(".")[-1] == "pad"]
+        okp = len(pads) == 1 and len(pads[0].args) >= 2 and src(pads[0].args[1]).replace(" ", "") in ("(0,1)", "((0,1),(0,1))", "[(0,1),(0,1)]", "[(0,1)]", "((0,1),)") and src(pads[0].args[0]) == "self._unitary" and not in_loop(pads[0])
+        res.add(okp, "M2-one-mode-per-loss", fi.qualname + ":pad", fi.site(pads[0]) if pads else fi.site(), fi.qualname, "accumulated unitary is padded by one row/column, once",
+                "accumulated unitary is not padded by exactly one row and column per Loss element", construct=src(pads[0]) if pads else fi.qualname)
+        # the padded matrix gets 1 on the new diagonal entry and becomes the accumulator
+        pst = _stmt_of(par, pads[0]) if pads else None
+        tgt = src(pst.targets[0]) if isinstance(pst, ast.Assign) else ""
+        diag = [a for a in walk_no_nested(fn) if isinstance(a, ast.Assign) and tgt and src(a.targets[0]).replace(" ", "") == f"{tgt}[-1,-1]"]
+        stored = tgt == "self._unitary" or any(isinstance(a, ast.Assign) and src(a.targets[0]) == "self._unitary" and src(a.value) == tgt for a in walk_no_nested(fn))
+        if not tgt:
+            res.frozen(False, "M2-one-mode-per-loss", fi.qualname + ":diag", fi.site(), fi.qualname, "", "padded matrix is not assigned to a name or the accumulator", construct=src(pst)[:100] if pst else "")
+        else:
+            res.add(len(diag) == 1 and stored and src(diag[0].value).replace(" ", "") in ("1+0j", "1", "1.0", "1.0+0j", "1j*0+1", "complex(1)"), "M2-one-mode-per-loss", fi.qualname + ":diag", fi.site(diag[0]) if diag else fi.site(), fi.qualname,
+                    "the new loss mode starts as an identity row/column", "new loss mode is not initialised to identity (or the padded matrix is dropped)", construct=src(diag[0]) if diag else fi.qualname)
+    gus = [c for c in walk_no_nested(fn) if isinstance(c, ast.Call) and isinstance(c.func, ast.Attribute) and c.func.attr == "get_unitary"]
     res.add(bool(gus) and all(len(c.args) == 1 and src(c.args[0]) == "self.total_modes" for c in gus), "M2-component-matrix-size", fi.qualname, fi.site(), fi.qualname,
             "component matrices are built for n_modes + loss modes", "component matrix size is not the total (real + loss) mode count", construct=";".join(src(c) for c in gus))
-    rets = [r for r in walk_no_nested(total.node) if isinstance(r, ast.Return)]
+    rets = [r for r in walk_no_nested(inlined(total.node)) if isinstance(r, ast.Return)]
     t = src(rets[0].value).replace(" ", "") if rets else ""
-    res.add(t in ("self.n_modes+self.loss_modes", "self.loss_modes+self.n_modes", "self._n_modes+self._loss_modes", "self._loss_modes+self._n_modes"), "M2-component-matrix-size", total.qualname, total.site(), total.qualname,
+    res.add(t in ("self.n_modes+self.loss_modes", "self.loss_modes+self.n_modes", "self._n_modes+self._loss_modes", "self._loss_modes+self._n_modes", "self.n_modes+self._loss_modes", "self._loss_modes+self.n_modes", "self._n_modes+self.loss_modes", "self.loss_modes+self._n_modes"), "M2-component-matrix-size", total.qualname, total.site(), total.qualname,
             "total_modes = n_modes + loss_modes", f"total_modes is `{t}`", construct=t)
-    rets = [r for r in walk_no_nested(circ_u.node) if isinstance(r, ast.Return)]
+    rets = [r for r in walk_no_nested(inlined(circ_u.node)) if isinstance(r, ast.Return)]
     t = src(rets[0].value).replace(" ", "") if rets else ""
     res.add(t.endswith("[:self.n_modes,:self.n_modes]") and "U_full" in t, "M2-U-leading-block", circ_u.qualname, circ_u.site(), circ_u.qualname, "U is the leading n_modes x n_modes block of U_full",
             f"U is `{t}`, not the leading block of U_full", construct=t)
+
+
+def _parents(fn):
+    par = {}
+    for n in ast.walk(fn):
+        for c in ast.iter_child_nodes(n):
+            par[c] = n
+    return par
 
 
 def _stmt_of(par, n):
@@ -111,9 +236,10 @@ def m3_block_coverage(ctx, res: Result, fi: FuncInfo, modes: list[str], extra: l
     """A component on modes S writes exactly S x S, each entry once (per convention branch)."""
     S = modes + (extra or [])
     want = {(a, b) for a in S for b in S}
-    pairs = _index_pairs(fi.node)
+    pairs = _index_pairs(inlined(fi.node))
     if not pairs:
-        raise AnalysisError(f"{fi.qualname}: no unitary[r, c] stores found")
+        res.frozen(False, "M3-block-coverage", fi.qualname, fi.site(), fi.qualname, "", "no unitary[r, c] stores recognised", construct=fi.qualname)
+        return
     branches: dict = {}
     for br, r, c, a in pairs:
         branches.setdefault(br, []).append((r, c, a))
@@ -130,7 +256,7 @@ def m3_block_coverage(ctx, res: Result, fi: FuncInfo, modes: list[str], extra: l
 
 
 def m3_slice_block(ctx, res: Result, fi: FuncInfo) -> None:
-    stores = [a for a in walk_no_nested(fi.node) if isinstance(a, ast.Assign) and isinstance(a.targets[0], ast.Subscript) and src(a.targets[0].value) == "unitary"]
+    stores = [a for a in walk_no_nested(inlined(fi.node)) if isinstance(a, ast.Assign) and isinstance(a.targets[0], ast.Subscript) and src(a.targets[0].value) == "unitary"]
     ok = False
     why = "no sliced block store"
     for a in stores:
@@ -148,35 +274,64 @@ def m3_slice_block(ctx, res: Result, fi: FuncInfo) -> None:
 
 def m4_permutation_orientation(ctx, res: Result, fi: FuncInfo) -> None:
     """swaps k -> v is stored at [v, k] (rows = outputs, columns = inputs)."""
+    fn = inlined(fi.node)
     found = False
-    for lp in walk_no_nested(fi.node):
+    direct = False
+    for lp in walk_no_nested(fn):
         if isinstance(lp, ast.For) and isinstance(lp.target, ast.Tuple) and len(lp.target.elts) == 2 and src(lp.iter).endswith(".items()"):
             k, v = (src(x) for x in lp.target.elts)
             for a in ast.walk(lp):
-                if isinstance(a, ast.Assign) and isinstance(a.targets[0], ast.Subscript) and isinstance(a.targets[0].slice, ast.Tuple):
+                if isinstance(a, ast.Assign) and isinstance(a.targets[0], ast.Subscript) and isinstance(a.targets[0].slice, ast.Tuple) and len(a.targets[0].slice.elts) == 2:
                     r, c = (src(x) for x in a.targets[0].slice.elts)
+                    if {r, c} != {k, v}:
+                        continue
                     found = True
+                    if isinstance(lp.iter, ast.Call) and isinstance(lp.iter.func, ast.Attribute) and isinstance(lp.iter.func.value, ast.Name) and lp.iter.func.value.id in fi.params():
+                        direct = True
                     res.add((r, c) == (v, k), "M4-permutation-orientation", fi.qualname, fi.site(a), fi.qualname, "entry for initial mode k -> destination v is stored at [v, k]",
                             f"permutation entry stored at [{r}, {c}] for items ({k} -> {v}): the transpose (inverse permutation); invisible for involutive swaps only", construct=src(a))
     if not found:
-        # comprehension / other construction: accept `permutation[dst, src]` forms only if recognisable
-        raise AnalysisError(f"{fi.qualname}: permutation construction not recognised")
-    fills = [lp for lp in walk_no_nested(fi.node) if isinstance(lp, ast.For) and "range(n_modes)" in src(lp.iter)]
-    good = any("swaps.get(m, m)" in src(lp) or ".get(" in src(lp) for lp in fills)
-    res.add(good, "M4-permutation-total", fi.qualname, fi.site(), fi.qualname, "modes absent from the swap dictionary map to themselves", "modes absent from the swap dictionary are not completed with the identity", construct=fi.qualname)
+        res.frozen(False, "M4-permutation-orientation", fi.qualname, fi.site(), fi.qualname, "", "permutation construction (loop over items storing [v, k]) not recognised", construct=fi.qualname)
+        return
+    # absent modes map to themselves: d.get(m, m) for m over range(n_modes), in a loop or a comprehension
+    good = False
+    for n in ast.walk(fn):
+        gen_iters = []
+        if isinstance(n, ast.For):
+            gen_iters = [(n.target, n.iter, n)]
+        elif isinstance(n, (ast.DictComp, ast.ListComp, ast.GeneratorExp)):
+            gen_iters = [(g.target, g.iter, n) for g in n.generators]
+        for tg, it, scope in gen_iters:
+            if isinstance(it, ast.Call) and src(it.func) == "range" and isinstance(tg, ast.Name):
+                for c in ast.walk(scope):
+                    if isinstance(c, ast.Call) and isinstance(c.func, ast.Attribute) and c.func.attr == "get" and len(c.args) == 2 and src(c.args[0]) == src(c.args[1]) == tg.id:
+                        good = True
+    if good:
+        res.ok("M4-permutation-total", fi.qualname, fi.site(), fi.qualname, "modes absent from the swap dictionary map to themselves")
+    elif direct:
+        res.bad("M4-permutation-total", fi.qualname, fi.site(), fi.qualname, "the matrix is filled from the swap dictionary as given: modes absent from the swap dictionary are not completed with the identity", construct=fi.qualname)
+    else:
+        res.frozen(False, "M4-permutation-total", fi.qualname, fi.site(), fi.qualname, "", "completion of absent modes (d.get(m, m) over range(n)) not recognised", construct=fi.qualname)
 
 
 def m3_block_unitary(ctx, res: Result, fi: FuncInfo, symbols: dict) -> None:
     """The entries a component writes form a unitary block for every parameter value (polynomial
     identity M^dagger M = I over the generators; rules s^2 = 1 - c^2, b^2 = 1 - a^2)."""
-    from ..fold import Angle, Folder, NotFoldable
+    from ..fold import Angle, Folder, NotFoldable, SignLost
     from ..poly import Poly, mdag, meq, meye, mmul
 
     c, s_ = Poly.gen("c"), Poly.gen("s")
     Poly.rules = {"s": Poly.const(1) - c * c, "b": Poly.const(1) - Poly.gen("a") * Poly.gen("a")}
-    pairs = _index_pairs(fi.node)
+    keep = set()
+    for k in symbols:
+        try:
+            keep |= {x.id for x in ast.walk(ast.parse(k, mode="eval")) if isinstance(x, ast.Name)}
+        except SyntaxError:
+            pass
+    pairs = _index_pairs(inlined(fi.node, tuple(sorted(keep))))
     if not pairs:
-        raise AnalysisError(f"{fi.qualname}: no unitary[r, c] stores found")
+        res.frozen(False, "M3-block-unitary", fi.qualname, fi.site(), fi.qualname, "", "no unitary[r, c] stores recognised", construct=fi.qualname)
+        return
     branches: dict = {}
     for br, r, cc, a in pairs:
         branches.setdefault(br, []).append((r, cc, a))
@@ -195,8 +350,12 @@ def m3_block_unitary(ctx, res: Result, fi: FuncInfo, symbols: dict) -> None:
             for r, cc, a in lst:
                 val = _fold_with_symbols(fd, a.value, symbols)
                 M[idx.index(r)][idx.index(cc)] = val
+        except SignLost as e:
+            res.bad("M3-block-unitary", f"{fi.qualname}:{br or 'body'}", fi.site(lst[0][2]), fi.qualname, f"{e}: the sign of the entry is lost for part of the parameter range, the block is not the documented matrix", construct=str(e)[:200])
+            continue
         except NotFoldable as e:
-            raise AnalysisError(f"{fi.qualname}: matrix entry not foldable: {e}") from e
+            res.frozen(False, "M3-block-unitary", f"{fi.qualname}:{br or 'body'}", fi.site(lst[0][2]), fi.qualname, "", f"matrix entry not foldable: {e}", construct=str(e)[:200])
+            continue
         ok = meq(mmul(mdag(M), M), meye(len(idx)))
         inst = f"{fi.qualname}:{br or 'body'}"
         res.add(ok, "M3-block-unitary", inst, fi.site(lst[0][2]), fi.qualname, "the written block is unitary for every parameter value",
